@@ -238,7 +238,12 @@ def run(ctx):
                 return out
             for nm, fn in (("drop-acked-hincrby", drop_incr), ("one-replica-differs", one_replica_differs), ("swap-two-answers", swap_answers)):
                 p = os.path.join(ctx.sub("selftest"), nm + ".ndjson")
-                N.rewrite(good, p, fn)
+
+                def first_epoch(ev, fn=fn):
+                    # a rejection is an exhaustive search: keep it small (first epoch only)
+                    n = next((j for j, e in enumerate(ev) if e.get("ev") == "settle"), len(ev) - 1)
+                    return fn(ev[:n + 1])
+                N.rewrite(good, p, first_epoch)
                 v = N.validate(ctx, "ZLinTrace", p, "self-" + nm, timeout=420)
                 if v is None:        # TLC did not finish the (exhaustive) rejection in time: environment
                     ctx.skipped += 1
